@@ -16,6 +16,10 @@ def run(rep, tier, seed):
     # statement about interleavings: it is decided by the C12 machinery (Dedup.tla's ResultFresh, the gate scheduler)
     from checks import c12
     c12.run(rep, tier, seed)
+    # the consumer clause for the copy-on-read sparse file (overlapping readers while a load fails: error, never zeros) is
+    # likewise a statement about interleavings, decided by the C10 machinery (SparseFile.tla, gated store and loader)
+    from checks import c10
+    c10.run(rep, tier, seed)
     c11.drive(rep, "C03", tier, seed)      # chains over corrupt members: NoBadDelivery is checked at every Get
     work = os.path.join(vlib.BUILD, "work", "C03")
     binp = vlib.go_build("c03")
